@@ -444,12 +444,17 @@ class BinnedTrees(Iterable[AngularTree]):
             ValueError:
                 If bin edges are provided but patch has not redshifts attached.
         """
-        try:
-            assert not force
-            new = cls(patch)  # trees exists, load the associated binning
-            assert new.binning_equal(binning)
+        new = None
+        if not force:
+            try:
+                new = cls(patch)  # trees exists, load the associated binning
+            except FileNotFoundError:
+                pass
+            else:
+                if not new.binning_equal(binning):
+                    new = None
 
-        except (AssertionError, FileNotFoundError):
+        if new is None:
             new = cls.__new__(cls)
             new._patch = patch
             new.binning = binning
